@@ -91,13 +91,15 @@ func (s *Store) Store(ctx context.Context, record *workflow.Record) error {
 	// Keep a private copy: the caller goes on using (and mutating) its record.
 	record = copyRecord(record)
 
-	// Add record to store
+	// Add record to store. The key index points at the most recently CREATED run of the workflow and foreign ID:
+	// writing to an older run again must not make it the latest one.
 	uk := uniqueKey(record.WorkflowName, record.ForeignID)
-	s.keyIndex[uk] = record
-
 	_, previouslyExisted := s.store[record.RunID]
 	if !previouslyExisted {
 		s.order = append(s.order, record.RunID)
+		s.keyIndex[uk] = record
+	} else if indexed, ok := s.keyIndex[uk]; ok && indexed.RunID == record.RunID {
+		s.keyIndex[uk] = record
 	}
 	s.store[record.RunID] = record
 	s.outbox = append(s.outbox, workflow.OutboxEvent{
